@@ -3,6 +3,7 @@ mod rng;
 mod sim;
 mod vclock;
 mod m_c13;
+mod m_c20;
 mod m_run;
 mod m_state;
 mod oracles;
@@ -60,6 +61,7 @@ fn main() {
         "c13" => m_c13::run(&args, &mut out),
         "run" => m_run::run(&args, &mut out),
         "state" => m_state::run(&args, &mut out),
+        "c20" => m_c20::run(&args, &mut out),
         other => { eprintln!("unknown mode {other}"); std::process::exit(2); }
     }
     out.w.flush().unwrap();
